@@ -61,7 +61,7 @@ namespace igris
         size_t in_len = encoded_string.size();
         int i = 0;
         int j = 0;
-        int in_ = 0;
+        size_t in_ = 0;
         unsigned char char_array_4[4], char_array_3[3];
         std::string ret;
 
